@@ -9,7 +9,7 @@ from props import producer_lib as L
 MODEL = "producer"
 MODULE = "Model.Producer"
 OPS = {1: "send", 2: "badsend", 3: "cancel", 4: "tick", 5: "metaset", 6: "metaclearall", 7: "loaddone", 8: "timer",
-       9: "version", 10: "result", 11: "stop"}
+       9: "version", 10: "result", 11: "stop", 12: "resultomit", 13: "broken"}
 OUTS = {1: "produce", 2: "sched", 3: "canceltimer", 4: "resetmeta", 5: "loadmeta", 6: "getversion", 7: "outcome"}
 
 
